@@ -28,7 +28,9 @@ Identity, Types):
         lexer and parser: `lexer_parser_total` (C02), type resolution: `type_resolution_fuel` (C09),
         identity closure: `identity_walk_terminates` (C11)
 * (d) Cycles are errors, never divergence: `cycles_are_errors` (a `uses` that leads back into a
-  grouping under conversion answers the `cycle` error entry), `typedef_cycle_is_error` (C09),
+  grouping under conversion answers the `cycle` error entry), `typedef_cycle_is_error_below` (C09;
+  the older `typedef_cycle_is_error` is vacuous — its hypothesis `Unambiguous` holds of no registry,
+  `Goyang.Props.C09.unambiguous_false` — and is kept only for the record),
   `identity_cycle_is_error` (C11); include / import cycles are cut by the visited set of
   `includeWalk` (a).
 
@@ -178,14 +180,43 @@ theorem reentry_is_cycle_error (env : Env) (k : Nat) (root : Mod) (scope : List 
     toEntry env (k + 1) root scope n visiting st = (errorEntry root n "cycle", st) :=
   toEntry_reentry env k root scope n visiting st ht hv hcache hg
 
-/-- Typedef cycles (C09): a type statement that is defined in terms of itself, or depends on one
-that is, resolves with an error — for every fuel and every stack, so also without divergence. -/
+/-- Typedef cycles (C09), first form.  SUPERSEDED by `typedef_cycle_is_error_below`: the hypothesis
+`Unambiguous env.reg` quantifies over every conceivable site (made-up enclosing statements
+included) and holds of no registry (`Goyang.Props.C09.unambiguous_false`), so this statement is
+vacuous.  Kept as it was for the record. -/
 theorem typedef_cycle_is_error (env : Goyang.Model.Types.Env) (hU : Goyang.Spec.Types.Unambiguous env.reg) (fuel : Nat)
     (root : Mod) (scope : List Stmt) (t : Stmt) (stack : List Goyang.Model.Types.TypeKey)
     (ht : Goyang.Spec.Types.scopeKinds.contains t.kw = false)
     (hc : Goyang.Spec.Types.Cyclic env.reg (root, scope, t)) :
     (Goyang.Model.Types.resolveTypeF env fuel root scope t stack).errs ≠ [] :=
   Goyang.Props.C09.cyclic_is_error env hU fuel root scope t stack ht hc
+
+/-- Typedef cycles (C09): a type statement that is defined in terms of itself, or depends on one
+that is, resolves with an error — for every fuel and every stack, so also without divergence —
+whenever no name met while resolving it denotes two typedefs (`UnambiguousBelow`: only the sites
+reachable from the reference through "names the typedef whose type is" / "has the member type"
+steps; satisfiable, see the example). -/
+theorem typedef_cycle_is_error_below (env : Goyang.Model.Types.Env) (fuel : Nat)
+    (root : Mod) (scope : List Stmt) (t : Stmt)
+    (hU : Goyang.Lemmas.TypesDefs.UnambiguousBelow env.reg (root, scope, t))
+    (stack : List Goyang.Model.Types.TypeKey)
+    (ht : Goyang.Spec.Types.scopeKinds.contains t.kw = false)
+    (hc : Goyang.Spec.Types.Cyclic env.reg (root, scope, t)) :
+    (Goyang.Model.Types.resolveTypeF env fuel root scope t stack).errs ≠ [] :=
+  Goyang.Props.C09.cyclic_is_error_below env fuel root scope t hU stack ht hc
+
+/-- Non-vacuity: `typedef a { type b; } typedef b { type a; } leaf l { type a; }` (the schema
+`Goyang.Props.C09.Ex.env4`): the leaf's type is `Cyclic` (`cyclic_q0`), no name met denotes two
+typedefs (`unamb_q0`, discharged through the executable binding), and the model answers `cycle`. -/
+example (fuel : Nat) (stack : List Goyang.Model.Types.TypeKey) :
+    (Goyang.Model.Types.resolveTypeF Goyang.Props.C09.Ex.env4 fuel Goyang.Props.C09.Ex.mD
+      [Goyang.Props.C09.Ex.leafQ, Goyang.Props.C09.Ex.d] Goyang.Props.C09.Ex.tyQ stack).errs ≠ [] :=
+  typedef_cycle_is_error_below Goyang.Props.C09.Ex.env4 fuel Goyang.Props.C09.Ex.mD
+    [Goyang.Props.C09.Ex.leafQ, Goyang.Props.C09.Ex.d] Goyang.Props.C09.Ex.tyQ
+    Goyang.Props.C09.Ex.unamb_q0 stack (by decide) Goyang.Props.C09.Ex.cyclic_q0
+example : ((Goyang.Model.Types.resolveTypeF Goyang.Props.C09.Ex.env4 10 Goyang.Props.C09.Ex.mD
+      [Goyang.Props.C09.Ex.leafQ, Goyang.Props.C09.Ex.d] Goyang.Props.C09.Ex.tyQ []).errs.map (·.cls)) = ["cycle"] := by
+  decide
 
 /-- Type resolution never reports an exhausted budget with the fuel the model supplies (C09). -/
 theorem type_resolution_fuel (reg : Registry) (root : Mod) (scope : List Stmt) (t : Stmt)
